@@ -104,6 +104,9 @@ pub const CASED: &[&str] = &[
     "\u{212B}", "\u{E5}", "\u{13A0}", "\u{AB70}", "\u{1C90}", "\u{10D0}", "\u{1C5}", "\u{A7DC}",
     "\u{16EA0}", "\u{131}", "I", "i", "\u{DF}", "S", "s", "\u{17F}", "\u{1F88}", "\u{390}", "\u{1FD3}",
     "A", "a", "Z", "\u{E9}", "\u{C9}",
+    // lower-case partners of letters whose mapping the regex crate may not know, and lower-case letters that
+    // fold together (long s, final sigma, micro sign)
+    "\u{19B}", "\u{16EBB}", "\u{264}", "\u{A7CB}", "\u{B5}", "\u{3BC}",
 ];
 pub const DIGITS: &[&str] = &[
     "0", "7", "\u{663}", "\u{969}", "\u{1D7D7}", "\u{B2}", "\u{2167}", "_", "a", "\u{E9}", " ", "\u{a0}",
@@ -311,7 +314,7 @@ impl Driver {
             "classes" => d.n = q(1200, 20000),
             "icase-words" => d.n = q(1500, 25000),
             "icase-sweep" => d.n = N_SCALARS,
-            "class-sweep" => d.n = N_SCALARS,
+            "class-sweep" => d.n = N_SCALARS + (N_SCALARS - 5) / 16,
             "escape-sweep" => d.n = N_SCALARS,
             "repeats" => d.n = q(1500, 25000),
             "thresholds" => d.n = q(500, 12000),
@@ -499,6 +502,9 @@ impl Driver {
                     runs.push(run(ic.with(f, true), &tcs));
                 }
                 runs.push(run(ic.with("nostart", true).with("noend", true), &tcs));
+                // the same text first without, then with (?i): nothing remembered from the first may leak
+                runs.push(run(base.with("rep", true).with("noend", true), &tcs));
+                runs.push(run(ic.with("rep", true).with("noend", true), &tcs));
                 mk(tcs, runs)
             }
             // every scalar value alone, case-insensitively
@@ -510,10 +516,13 @@ impl Driver {
             // C09: every scalar value alone under the six single class flags (quick) /
             // all 64 subsets (thorough)
             "class-sweep" => {
-                let c = scalar(i);
-                // every 16th scalar value is (also) placed in front of an emoji modifier: the two code points
-                // form ONE grapheme cluster, and each must still be classified on its own
-                let in_cluster = i % 16 == 5 && !c.is_control() && (c as u32) > 0x20;
+                // indices beyond the scalar values: every 16th scalar value in front of an emoji modifier - the two
+                // code points form ONE grapheme cluster, and each must still be classified on its own
+                let in_cluster = i >= N_SCALARS;
+                let c = if in_cluster { scalar((i - N_SCALARS) * 16 + 5) } else { scalar(i) };
+                if in_cluster && (c.is_control() || (c as u32) <= 0x20) {
+                    return None;
+                }
                 let tcs = if in_cluster { vec![format!("{}\u{1F3FB}", c)] } else { vec![c.to_string()] };
                 let mut runs = vec![];
                 if self.thorough {
